@@ -494,3 +494,12 @@ SPECS["C13"]["contracts"] += [k for k in (_UNIQ[:4] + ["smpl_extract.structural:
 SPECS["C13"]["level_text"] += (". Added: a census of every `while` loop of the package (15): each lies in a function under a termination obligation of this check - a ranking "
                                "function for any input (11 loops), or complete unrolling for fixed shapes (the two naming loops, the path tokeniser, the parent-chain walk); a loop "
                                "appearing in a function without such an obligation is reported as undecided")
+for _pid in ("C05", "C06", "C10"):
+    SPECS[_pid]["contracts"].append("lemma:counted_names_differ_for_different_counts")
+SPECS["C14"]["bounded"].append(("contracts.akai_file_entry", "assumed:akai_entry_parse_effects"))
+SPECS["C15"]["bounded"].append(("contracts.akai_file_entry", "assumed:akai_entry_parse_effects"))
+SPECS["C14"]["level_text"] += ". The ASSUMED effect contracts of construct's entry parser are exercised on the real parser (cursor effect, exception classes) by a bounded monitor"
+for _pid in ("C08", "C11"):
+    SPECS[_pid]["bounded"].append(("contracts.assumed_checks", "assumed:io_read_only_file"))
+SPECS["C12"]["bounded"].append(("contracts.assumed_checks", "assumed:numpy_item_model"))
+SPECS["C10"]["bounded"].append(("contracts.assumed_checks", "assumed:re_split_tokeniser"))
